@@ -385,64 +385,44 @@ def frame_writer_funcs(repo) -> List[FuncInfo]:
 
 
 def ranks(ctx):
+    """R05.4 on the abstract shape domain (pvs/shapes.py): the frame writer is followed with record buffers of shape
+    (size, buffer) - size 1 for dt / screening iterations, several rows for the probe records; buffer 1 (save_every == 1) or larger -
+    into a model output file, and DynamicsData.from_hdf5 is followed on that file."""
+    from ..shapes import MANY, Arr, read_records, write_frames
     repo = ctx.repo
     fr = repo.func(DATA, "DynamicsData.from_hdf5")
-    # writer: the loop over running_state.items()
-    cands = [(f, n) for f in frame_writer_funcs(repo) for n in own_nodes(f.node)
-             if isinstance(n, ast.For) and norm(n.iter) == "running_state.items()"]
-    if len(cands) != 1 or not isinstance(cands[0][1].target, ast.Tuple):
-        raise AnalysisError("the frame writer no longer iterates running_state.items()")
-    fw = cands[0][0]
-    loops = [cands[0][1]]
-    lp = loops[0]
-    var = lp.target.elts[1].id
-    keyvar = lp.target.elts[0].id
-    # the group the records go to: a name bound to <group>.create_group("running_state")
-    rgroups = {norm(n.targets[0]) for n in ast.walk(fw.node) if isinstance(n, ast.Assign) and isinstance(n.value, ast.Call)
-               and isinstance(n.value.func, ast.Attribute) and n.value.func.attr in ("create_group", "require_group")
-               and n.value.args and isinstance(n.value.args[0], ast.Constant) and n.value.args[0].value == "running_state"}
-    stores = [s for s in lp.body if isinstance(s, ast.Assign) and isinstance(s.targets[0], ast.Subscript)
-              and norm(s.targets[0].value) in rgroups and norm(s.targets[0].slice) == keyvar]
-    if len(stores) != 1:
-        raise AnalysisError("the frame writer no longer stores each record with <running_state group>[key] = ...")
-    pre = [s for s in lp.body if s is not stores[0]]
-    # reader: required rank per record name.  A list is tied to a record by the key read in the appended value.
-    need: Dict[str, int] = {}
-    lists: Dict[str, str] = {}
-    for n in ast.walk(fr.node):
-        if isinstance(n, ast.Call) and isinstance(n.func, ast.Attribute) and n.func.attr == "append" and isinstance(n.func.value, ast.Name) \
-                and n.args and isinstance(n.args[0], ast.Call):
-            sub = [x for x in ast.walk(n.args[0]) if isinstance(x, ast.Subscript) and isinstance(x.value, ast.Name)
-                   and isinstance(x.slice, ast.Constant) and isinstance(x.slice.value, str)]
-            if sub:
-                lists[n.func.value.id] = sub[0].slice.value
-    for n in ast.walk(fr.node):
-        if isinstance(n, ast.Call) and norm(n.func).endswith("concatenate") and n.args and isinstance(n.args[0], ast.Name) \
-                and n.args[0].id in lists:
-            ax = 0
-            for k in n.keywords:
-                if k.arg == "axis" and isinstance(k.value, ast.Constant):
-                    ax = k.value.value
-            need[lists[n.args[0].id]] = ax + 1
-    if set(need) != {"dt", "mu", "theta", "screening_iterations"}:
-        raise AnalysisError(f"reader no longer concatenates the four record lists (found {sorted(need)})")
-    sizes = {"dt": "1", "screening_iterations": "1", "mu": "m", "theta": "m"}
-    for name in sorted(need):
-        for se in ("1", "m"):
-            shape = (sizes[name], se)
-            out = abs_transform(pre, var, shape, stores[0].value)
-            if out is None:
-                raise AnalysisError(f"record writer transformation `{norm(stores[0].value)}` is outside the shape fragment")
-            ok = out != ("ERROR",) and len(out) == need[name]
-            ctx.ob("R05.4", f"record {name!r} buffer {shape} -> written rank {len(out)} vs reader rank {need[name]}", ok,
-                   detail={"written_shape": out, "writer": norm(stores[0].value), "save_every": "1" if se == "1" else ">1"},
-                   nontrivial=(se == "1"), where=fw.fq, construct=f"{norm(stores[0])} for {name} with save_every {'== 1' if se == '1' else '> 1'}",
-                   loc=loc(fw, stores[0]),
-                   message=f"`{norm(stores[0].value)}` turns the {shape} buffer of {name!r} into rank {len(out)}, but "
-                           f"DynamicsData.from_hdf5 concatenates it as rank {need[name]}",
+    fw = repo.cls(RUNNER, "DataHandler").methods["save_time_step"]
+    configs = [("dt only", {"dt": 1}), ("probes", {"dt": 1, "mu": MANY, "theta": MANY}),
+               ("screening", {"dt": 1, "screening_iterations": 1}),
+               ("probes and screening", {"dt": 1, "mu": MANY, "theta": MANY, "screening_iterations": 1})]
+    for label, sizes in configs:
+        for buffer in (1, MANY):
+            frames = 2
+            out, problems = write_frames(repo, sizes, buffer, frames)
+            kind, val = read_records(repo, out, frames + 1) if not problems else ("raise", problems[0])
+            want = {"dt": (frames * buffer,), "mu": (MANY, frames * buffer), "theta": (MANY, frames * buffer), "screening_iterations": (frames * buffer,)}
+            got = {}
+            if kind == "return" and getattr(val, "parts", None) and val.parts[0] == "call":
+                names = ["dt", "mu", "theta", "screening_iterations"]
+                passed = dict(zip(names, val.parts[2]))
+                passed.update(val.parts[3])
+                got = {k: (v.shape if isinstance(v, Arr) else v) for k, v in passed.items()}
+            ok = kind == "return" and all(got.get(k) == want[k] for k in sizes) and all(got.get(k) is None for k in want if k not in sizes)
+            se = "== 1" if buffer == 1 else "> 1"
+            ctx.ob("R05.4", f"records ({label}) with save_every {se}: what the frame writer stores is what the reader concatenates", ok,
+                   detail={"buffers": {k: (v, buffer) for k, v in sizes.items()}, "loaded": {k: str(v) for k, v in got.items()},
+                           "outcome": kind if kind == "return" else f"raises {val}"},
+                   nontrivial=(buffer == 1), where=fw.fq, construct=f"record ranks ({label}) with save_every {se}", loc=loc(fw, fw.node),
+                   message=f"records ({label}), save_every {se}: loading {'raises ' + str(val) if kind != 'return' else 'gives ' + str(got)}, expected {want}",
                    consequence="any run with save_every=1 cannot be loaded: ValueError 'zero-dimensional arrays cannot be "
                                "concatenated' in DynamicsData.from_hdf5 (tdgl.solve raises after the simulation finished)",
                    witness={"input": "SolverOptions(solve_time=..., save_every=1)"})
+    # a file whose only frame carries no records (cancelled during the first step) still loads
+    out, problems = write_frames(repo, {"dt": 1}, MANY, 0)
+    kind, val = read_records(repo, out, 1) if not problems else ("raise", problems[0])
+    ctx.ob("R05.4", "a file with frame 0 only (no records yet) loads with empty records", kind == "return", detail=str(val)[:200], where=fr.fq,
+           construct="records of a run cancelled in its first step", loc=loc(fr, fr.node), message=f"loading raises {val}",
+           consequence="a run cancelled during its first step cannot be loaded")
 
 
 def thermalisation(ctx):
@@ -606,7 +586,19 @@ def zero_init(ctx):
     c = repo.cls(RUNNER, "RunningState")
     for m in ("__init__", "clear"):
         f = c.methods[m]
-        allocs = [norm(n.func) for n in ast.walk(f.node) if isinstance(n, ast.Call) and isinstance(n.func, ast.Attribute)
+        # allocations made by the method itself or by the methods of the class it calls on self (`__init__` delegating to `clear()`)
+        nodes, todo, seen_m = [], [f], set()
+        while todo:
+            g = todo.pop()
+            if g.qual in seen_m:
+                continue
+            seen_m.add(g.qual)
+            nodes += list(ast.walk(g.node))
+            for n in ast.walk(g.node):
+                if isinstance(n, ast.Call) and isinstance(n.func, ast.Attribute) and isinstance(n.func.value, ast.Name) and n.func.value.id == "self" \
+                        and n.func.attr in c.methods:
+                    todo.append(c.methods[n.func.attr])
+        allocs = [norm(n.func) for n in nodes if isinstance(n, ast.Call) and isinstance(n.func, ast.Attribute)
                   and n.func.attr in ("zeros", "empty", "ones", "full", "zeros_like", "empty_like")]
         ok = bool(allocs) and all(a.endswith("zeros") for a in allocs)
         ctx.ob("R05.7", f"RunningState.{m} allocates with zeros", ok, detail=allocs, where=f.fq, construct=f"RunningState.{m} allocation",
